@@ -265,6 +265,11 @@ def cases(tier, seed):
                 rng = gen.rng_for(seed, "C19", "direct", j)
                 yield {"k": "hist", "pipe": "direct", "n": 2, "set": st,
                        "prefix": [rng.choice(dsteps)], "fan": rng.sample(dsteps, 12)}
+    # (g) Write against an existing file: sizes around 64 KiB x relation of the new text to
+    # the existing content
+    for size in (0, 10, 4095, 65535, 65536, 65537, 131072, 131077, 200000):
+        for opt in ("default", "overwrite", "existing_unchanged"):
+            yield {"k": "writetable", "size": size, "opt": opt}
     # (f) MakeFilename naming rules
     for ci in range(len(MK_CONTEXTS)):
         for first in range(len(MK_VOCAB)):
@@ -1070,6 +1075,80 @@ def run_mkfn(r, obs):
             obs.check(value[0] == 7, "makefilename-data-changed", "data part changed; " + desc)
 
 
+def _text(n, salt=""):
+    """Deterministic text of *n* characters made of csv-like lines."""
+    out, i = [], 0
+    while sum(len(x) + 1 for x in out) < n + 40:
+        out.append("%d.000000,%d%s" % (i, (i * 7919) % 1000, salt))
+        i += 1
+    return "\n".join(out)[:n]
+
+
+def run_writetable(r, obs):
+    """Write given text for a file that exists: afterwards the file holds exactly the new text
+    and output.changed is true iff the content changed (existing_unchanged: the file is
+    documented to be left alone)."""
+    import shutil
+    import tempfile
+    import lena.output
+    size, opt = r["size"], r["opt"]
+    obs.nontrivial = True
+    new = _text(size)
+    relations = {
+        "equal": new,
+        "existing-is-strict-prefix": new[:max(0, size - 7)],
+        "existing-is-prefix-of-half": new[:size // 2],
+        "existing-is-longer": new + "\n9,9",
+        "differs-at-last-char": (new[:-1] + "#") if size else "#",
+        "differs-in-the-middle": (new[:size // 2] + "#" + new[size // 2 + 1:]) if size else "##",
+        "differs-at-first-char": ("#" + new[1:]) if size else "###",
+        "existing-empty": "",
+    }
+    d = tempfile.mkdtemp(prefix="rv_c19_w_")
+    try:
+        for rel, old in sorted(relations.items()):
+            kw = {"verbose": False}
+            if opt != "default":
+                kw[opt] = True
+            w = lena.output.Write(d, **kw)
+            path = os.path.join(d, "t.csv")
+            with open(path, "w") as f:
+                f.write(old)
+            for prev_changed in (None, False, True):
+                with open(path, "w") as f:
+                    f.write(old)
+                ctx = {"output": {"filename": "t", "fileext": "csv"}}
+                if prev_changed is not None:
+                    ctx["output"]["changed"] = prev_changed
+                res = list(w.run(iter([(new, ctx)])))
+                obs.count("write_table_rows")
+                with open(path) as f:
+                    on_disk = f.read()
+                flag = res[0][1].get("output", {}).get("changed") if res and \
+                    isinstance(res[0], tuple) else "no-result"
+                differs = old != new
+                if opt == "existing_unchanged":
+                    exp_disk, exp_flag = old, bool(prev_changed)
+                elif opt == "overwrite":
+                    exp_disk, exp_flag = new, True
+                else:
+                    exp_disk, exp_flag = new, (True if differs else bool(prev_changed))
+                sz = "over-64KiB" if size > 65536 else "up-to-64KiB"
+                obs.check(on_disk == exp_disk,
+                          "file-content-wrong:write-existing:%s:%s:%s" % (opt, rel, sz),
+                          "Write(%s) of %d characters over an existing file (%s, %d characters): "
+                          "the file now holds %d characters%s"
+                          % (opt, len(new), rel, len(old), len(on_disk),
+                             "" if len(on_disk) > 60 else " %r" % on_disk))
+                obs.check(bool(flag) == exp_flag and flag != "no-result",
+                          "write-changed-flag-wrong:existing:%s:%s:%s" % (opt, rel, sz),
+                          "Write(%s) of %d characters over an existing file (%s), incoming "
+                          "output.changed=%r: yielded output.changed=%r, expected %r"
+                          % (opt, len(new), rel, prev_changed, flag, exp_flag))
+    finally:
+        shutil.rmtree(d, ignore_errors=True)
+
+
 _REPORTED = {}          # mech -> number of violations reported by this worker process
 MAX_PER_MECH = 4        # per worker process; further repeats are counted, not listed
 
@@ -1080,6 +1159,8 @@ def run_case(r, obs):
             run_history(r, obs)
         elif r["k"] == "mkfn":
             run_mkfn(r, obs)
+        elif r["k"] == "writetable":
+            run_writetable(r, obs)
         else:
             raise ValueError(r["k"])
     finally:
